@@ -184,14 +184,16 @@ PopCtl == /\ ctl # <<>>
           /\ UNCHANGED <<open, closedEver, q, win, cwin, maxFrame, ring, nframes>> /\ TreeUnchanged
 
 \* consume the head of stream s (writeQueue.consume / FrameWriteRequest.Consume)
-Consume(s) ==
+\* cap: an additional byte budget of the caller (ThrottleOutOfOrderWrites of the priority scheduler hands one down); without it NoCap
+NoCap == 1073741824
+ConsumeCap(s, cap) ==
   LET f == Head(q[s]) IN
   IF f.k # "D" \/ f.len = 0
   THEN /\ out' = [ok |-> TRUE, id |-> f.id, s |-> s, k |-> f.k, len |-> 0, whole |-> TRUE]
        /\ q' = [q EXCEPT ![s] = Tail(@)]
        /\ acct' = [acct EXCEPT ![f.id].st = "done", ![f.id].sent = @ + 1]
        /\ UNCHANGED <<win, cwin>>
-  ELSE LET a == Allowed(s) IN
+  ELSE LET a == Min2(Allowed(s), cap) IN
        IF f.len > a
        THEN /\ out' = [ok |-> TRUE, id |-> f.id, s |-> s, k |-> "D", len |-> a, whole |-> FALSE]
             /\ q' = [q EXCEPT ![s] = <<[f EXCEPT !.len = @ - a]>> \o Tail(@)]
@@ -206,14 +208,18 @@ Consume(s) ==
 RRPick == LET idx == { i \in 1..Len(ring) : Sendable(ring[i]) } IN
           IF idx = {} THEN 0 ELSE CHOOSE i \in idx : \A j \in idx : i <= j
 
-PopFrom(s) == /\ ctl = <<>> /\ s \in open /\ Sendable(s)
+Consume(s) == ConsumeCap(s, NoCap)
+
+PopFromCap(s, cap) ==
+              /\ ctl = <<>> /\ s \in open /\ Sendable(s)
               /\ IF Kind = "rr"
                  THEN /\ RRPick # 0 /\ ring[RRPick] = s
                       /\ ring' = SubSeq(ring, RRPick + 1, Len(ring)) \o SubSeq(ring, 1, RRPick)
                  ELSE ring' = ring
               /\ (Kind = "prio" => s \in nodes /\ 0 \in Anc(s, parent, Fuel))   \* only nodes still hanging in the tree are visited
-              /\ Consume(s)
+              /\ ConsumeCap(s, cap)
               /\ UNCHANGED <<open, closedEver, ctl, maxFrame, nframes>> /\ TreeUnchanged
+PopFrom(s) == PopFromCap(s, NoCap)
 
 PopNone == /\ ctl = <<>> /\ \A s \in open : ~Sendable(s)
            /\ out' = NoOut
